@@ -421,3 +421,68 @@ func VerifHarness_C10_dtlcp_resumption_flight() {
 	verifTag("resumptionFlight", 1)
 	verifAssert("C10.dtlcp.resumptionFlightIsReadable", err == nil && c.in.err == nil && c.handBuf.Len() == 16)
 }
+
+// C09 / C17 — a flood of one-byte fragments, each opening a reassembly buffer for a new message sequence
+// number and announcing a 60000-byte message: one readHandshake call stops after maxHandshakeFragments
+// iterations and holds at most that many pending buffers.
+//
+//verif:harness props=C09,C17 paths=100 unwind=600 spin=C09.progress.fragmentFloodTerminates reach=stopped
+func VerifHarness_C09_fragment_flood() {
+	rt := &verifPConn{}
+	const k = 300
+	for i := 0; i < k; i++ {
+		d := make([]byte, 13+12+1)
+		d[0], d[1], d[2] = byte(recordTypeHandshake), 1, 1
+		d[9], d[10] = byte(i>>8), byte(i)
+		d[12] = 13
+		h := d[13:]
+		h[0] = typeFinished
+		h[1], h[2], h[3] = 0, 0xEA, 0x60 // 60000
+		h[4], h[5] = byte(i>>8), byte(i) // a new message sequence number every time
+		h[11] = 1                        // fragment length 1 at offset 0
+		rt.in = append(rt.in, d)
+	}
+	r := newSizeConn(rt, 1400, 0)
+	r.hsState.Store(int32(statePreparing))
+	r.readEpoch = 0
+	r.haveVers = true
+	r.replayWindow = newReplayWindow(64)
+	r.pendingFragments = map[uint16]*fragmentBuffer{}
+	_, err := r.readHandshake(nil)
+	verifReach("stopped")
+	verifAssert("C09.fragments.floodIsCutOff", err != nil && rt.pos <= maxHandshakeFragments+1)
+	verifAssert("C09.fragments.pendingBuffersBounded", len(r.pendingFragments) <= maxHandshakeFragments)
+}
+
+// C09 / C16 — one malformed datagram (arbitrary header: any version, lying length field, 13..20 bytes) on an
+// established connection, through Read and through ReadFrom: no panic, and the genuine record that follows is
+// delivered.
+//
+//verif:harness props=C09,C16 paths=60000 reach=delivered
+func VerifHarness_C16_malformed_datagram() {
+	mode := verifSplitInt("readPath", 0, 1)
+	iv := verifNondetBytes("iv", 4)
+	wt := &verifPConn{}
+	w := newEstablishedD(wt, vcGCM, iv, true, 0)
+	pt := verifNondetBytes("pt", 1)
+	w.out.Lock()
+	w.writeRecordLocked(recordTypeApplicationData, pt)
+	w.out.Unlock()
+	junk := verifNondetBytes("junk", verifSplitInt("junklen", 0, 20))
+	if len(junk) >= 13 {
+		l := []int{0, 3, 7, 8, 255, 16384 + 2048, 16384 + 2049, 65535}[verifSplitInt("claimedLen", 0, 7)]
+		junk[11], junk[12] = byte(l>>8), byte(l)
+	}
+	rt := &verifPConn{in: [][]byte{junk, wt.sent[0]}}
+	r := newEstablishedD(rt, vcGCM, iv, false, 0)
+	buf := make([]byte, 4)
+	var n int
+	var err error
+	if mode == 0 {
+		n, _, err = r.ReadFrom(buf)
+	} else {
+		n, err = r.Read(buf)
+	}
+	verifAssert("C16.malformed.genuineRecordStillDelivered", err == nil && n == 1 && buf[0] == pt[0])
+	verifReach("delivered")
+}
